@@ -164,7 +164,7 @@ def limited_iteration(effs, ctx, field):
 
 
 def clear_methods(cat, adt):
-    return [b for b in cat.methods(adt, "clear") if b.trait in ("Region", "Storage", None)]
+    return [b for b in cat.methods(adt, "clear")]
 
 
 def r_reset(F, R, cat=None, only=None):
